@@ -51,7 +51,7 @@ func clauseWordsFor(p *Prog, nodeType string) ([]string, bool, *InterpModel) {
 			continue
 		}
 		s := normName(strings.Join(parts, " ; "))
-		s = regexp.MustCompile(`obj:[A-Za-z0-9_>$.*()]+:t\d+`).ReplaceAllString(s, "obj")
+		s = regexp.MustCompile(`obj:[A-Za-z0-9_>$.*()#]+:t\d+`).ReplaceAllString(s, "obj")
 		if !seen[s] {
 			seen[s] = true
 			out = append(out, s)
@@ -112,7 +112,7 @@ func nativeWords(p *Prog, l *Ledger, typeName string) ([]string, *ssa.Function, 
 	var out []string
 	for _, w := range ws {
 		s := normName(wordString(w))
-		s = regexp.MustCompile(`obj:[A-Za-z0-9_>$.*()]+:t\d+`).ReplaceAllString(s, "obj")
+		s = regexp.MustCompile(`obj:[A-Za-z0-9_>$.*()#]+:t\d+`).ReplaceAllString(s, "obj")
 		if !seen[s] {
 			seen[s] = true
 			out = append(out, s)
